@@ -277,7 +277,10 @@ func genC09(c *Ctx) error {
 
 func c09One(c *Ctx) error {
 	rng := c.Rng
-	cw, err := newCCWorld()
+	// the switch for single swaps does not concern multi-swaps: one world in three has it set
+	o := ChanOpts{DisableSwaps: c.Rng.Intn(3) == 0}
+	c.Count(fmt.Sprintf("single_swaps_switched_off_%v", o.DisableSwaps))
+	cw, err := newCCWorldOpts(o)
 	if err != nil {
 		return err
 	}
@@ -417,7 +420,10 @@ func c09One(c *Ctx) error {
 
 func c09Two(c *Ctx, disc bool) error {
 	rng := c.Rng
-	cw, err := newCCWorld()
+	// the switch for single swaps does not concern multi-swaps: one world in three has it set
+	o := ChanOpts{DisableSwaps: c.Rng.Intn(3) == 0}
+	c.Count(fmt.Sprintf("single_swaps_switched_off_%v", o.DisableSwaps))
+	cw, err := newCCWorldOpts(o)
 	if err != nil {
 		return err
 	}
